@@ -121,6 +121,13 @@ def run(ctx):
         final.append((lang.shadow_arith_program(op, ch), [], 0))
     for _ in range(4 if quick else 40):
         final.append((lang.loops_program(rng), [], 0))
+    for _ in range(2 if quick else 20):
+        final.append((lang.guard_program(rng), [], 0))
+        final.append((lang.shortcircuit_shadowed(rng), [], 0))
+        final.append((lang.two_loops_program(rng), [], 0))
+        final.append((lang.bytes_program(rng), [], 0))
+        final.append((lang.scoping_shadowed(rng), [], 0))
+        final.append((lang.charclass_program(rng), [], 0))
     nofloat = len(final)
     for _ in range(2 if quick else 10):
         final.append((lang.float_program(rng), [], 0))
@@ -146,8 +153,13 @@ def run(ctx):
         if wid == "F-C03-2":
             s = {"res": "exit 0", "out": b"9\n"}           # unions are outside the reference model: expected transcript written by hand
         if not s["res"].startswith("exit"):
-            cnt["partial_runs"] += 1
-            continue
+            if s["res"] in ("fault assert", "fault oob", "fault divzero", "fault fuel") or r["rc"] != 0 and "hadow" in r["log"] and s["res"].startswith("fault"):
+                cnt["partial_runs"] += 1
+                continue
+            # outside the reference model (a builtin it does not know): the property's own oracle decides - what the shadow blocks print at
+            # compile time must be what the compiled program prints
+            cnt["outside_reference_model"] = cnt.get("outside_reference_model", 0) + 1
+            s = {"res": "exit 0", "out": r["native"]["out"] if r.get("native") else r["transcript"]}
         why = None
         if r["rc"] == "timeout":
             why = "nanoc does not finish"
